@@ -15,11 +15,18 @@ import (
 	"sync/atomic"
 	"time"
 
+	"context"
+	"net/http/httptest"
+	"net/url"
+
+	"github.com/google/inverting-proxy/utils/tcpbridge/connection"
+
 	"verifharness/hx"
 )
 
 func init() {
 	Drivers["bridge"] = bridgeDriver
+	Drivers["bridgelib"] = bridgeLibDriver
 }
 
 type bridgeCase struct {
@@ -132,6 +139,14 @@ func (s *bridgeServer) sniff(c net.Conn) {
 }
 
 func halfClose(c net.Conn) {
+	if _, isTCP := c.(*net.TCPConn); !isTCP {
+		if _, counted := c.(*countedConn); !counted {
+			if cw, ok := c.(interface{ CloseWrite() error }); ok {
+				cw.CloseWrite()
+				return
+			}
+		}
+	}
 	switch t := c.(type) {
 	case *net.TCPConn:
 		t.CloseWrite()
@@ -154,6 +169,7 @@ type peer struct {
 	read   int
 	wrote  int // stream offset of the next byte this peer writes
 	eof    chan struct{}
+	agg    int // > 0: report reads in batches of at least this many bytes (tiny read buffers, large streams)
 }
 
 func (p *peer) write(total int, seg string) {
@@ -173,13 +189,27 @@ func (p *peer) write(total int, seg string) {
 
 func (p *peer) readLoop(rbuf string) {
 	defer close(p.eof)
+	aggN, aggOK := 0, true
 	for {
 		buf := make([]byte, sizeOf(rbuf, p.rng))
 		n, err := p.conn.Read(buf)
 		if n > 0 {
 			ok := bytes.Equal(buf[:n], streamChunk(p.c, p.inDir, p.read, n))
-			hx.Emit("Rd", "c", p.c, "d", p.inDir, "n", n, "ok", ok)
 			p.read += n
+			if p.agg == 0 {
+				hx.Emit("Rd", "c", p.c, "d", p.inDir, "n", n, "ok", ok)
+			} else {
+				aggN += n
+				aggOK = aggOK && ok
+				if aggN >= p.agg {
+					hx.Emit("Rd", "c", p.c, "d", p.inDir, "n", aggN, "ok", aggOK)
+					aggN, aggOK = 0, true
+				}
+			}
+		}
+		if err != nil && aggN > 0 {
+			hx.Emit("Rd", "c", p.c, "d", p.inDir, "n", aggN, "ok", aggOK)
+			aggN = 0
 		}
 		if err != nil {
 			if err == io.EOF || strings.Contains(err.Error(), "connection reset by peer") {
@@ -233,6 +263,34 @@ func bridgeDriver(a *Args) {
 	}
 	time.Sleep(100 * time.Millisecond)
 	atomic.StoreInt64(&srv.open, 0)
+	// what "the bridge releases its connections" means for a process: its open file descriptors return to
+	// what they were before the connections existed
+	fdCount := func(p *hx.Proc) int {
+		ents, err := os.ReadDir(fmt.Sprintf("/proc/%d/fd", p.Cmd.Process.Pid))
+		if err != nil {
+			return -1
+		}
+		return len(ents)
+	}
+	time.Sleep(200 * time.Millisecond)
+	baseFE, baseBB := fdCount(fe), fdCount(bb)
+	fdsLeaked := func() int {
+		worst := 0
+		deadline := time.Now().Add(3 * time.Second)
+		for {
+			worst = 0
+			if d := fdCount(fe) - baseFE; baseFE >= 0 && d > worst {
+				worst = d
+			}
+			if d := fdCount(bb) - baseBB; baseBB >= 0 && d > worst {
+				worst = d
+			}
+			if worst == 0 || time.Now().After(deadline) {
+				return worst
+			}
+			time.Sleep(20 * time.Millisecond)
+		}
+	}
 
 	cn := 0
 	runCase := func(bc bridgeCase, sig string) {
@@ -384,7 +442,7 @@ func bridgeDriver(a *Args) {
 		hx.Reset(fmt.Sprintf("bridge-%d", i), sig)
 		runCase(bc, sig)
 		time.Sleep(30 * time.Millisecond)
-		hx.Emit("Final", "server_open", atomic.LoadInt64(&srv.open))
+		hx.Emit("Final", "server_open", atomic.LoadInt64(&srv.open), "bridge_fds_leaked", fdsLeaked())
 	}
 	// concurrent connections, full duplex, nobody closes until all data has arrived
 	conc := 4
@@ -475,8 +533,104 @@ func bridgeDriver(a *Args) {
 		}
 	}
 	time.Sleep(50 * time.Millisecond)
-	hx.Emit("Final", "server_open", atomic.LoadInt64(&srv.open))
+	hx.Emit("Final", "server_open", atomic.LoadInt64(&srv.open), "bridge_fds_leaked", fdsLeaked())
 	res.Case(fmt.Sprintf("concurrent:%d", conc), map[string]interface{}{"connections": conc, "bytes_each_way": total})
+
+	// many connections opened and closed over time, 16 at a time, closed from either side: afterwards the
+	// bridge processes hold nothing
+	hx.Reset("bridge-churn", "bridge:churn")
+	churn := 400
+	if hx.Thorough() {
+		churn = 3000
+	}
+	{
+		var cw sync.WaitGroup
+		sem := make(chan struct{}, 16)
+		var pmu2 sync.Mutex
+		pending := map[int]net.Conn{}
+		accept := func(c int) net.Conn {
+			deadline := time.After(10 * time.Second)
+			for {
+				pmu2.Lock()
+				if x, ok := pending[c]; ok {
+					delete(pending, c)
+					pmu2.Unlock()
+					return x
+				}
+				pmu2.Unlock()
+				select {
+				case x := <-srv.conns:
+					four := make([]byte, 4)
+					if _, err := io.ReadFull(x, four); err != nil {
+						x.Close()
+						continue
+					}
+					id := int(four[0])<<24 | int(four[1])<<16 | int(four[2])<<8 | int(four[3])
+					if id == c {
+						return x
+					}
+					pmu2.Lock()
+					pending[id] = x
+					pmu2.Unlock()
+				case <-time.After(3 * time.Millisecond):
+				case <-deadline:
+					return nil
+				}
+			}
+		}
+		for k := 0; k < churn; k++ {
+			cn++
+			c := cn
+			seed := rng.Int63()
+			sem <- struct{}{}
+			cw.Add(1)
+			go func(k int) {
+				defer cw.Done()
+				defer func() { <-sem }()
+				hx.Emit("Open", "c", c)
+				cl, err := net.Dial("tcp", feAddr)
+				if err != nil {
+					res.Bad("churn dial: %v", err)
+					return
+				}
+				cl.Write([]byte{byte(c >> 24), byte(c >> 16), byte(c >> 8), byte(c)})
+				sc := accept(c)
+				if sc == nil {
+					res.Bad("churn: server never saw connection %d", c)
+					cl.Close()
+					return
+				}
+				r := rand.New(rand.NewSource(seed))
+				client := &peer{conn: cl, c: c, outDir: "up", inDir: "down", rng: r, eof: make(chan struct{})}
+				server := &peer{conn: sc, c: c, outDir: "down", inDir: "up", rng: rand.New(rand.NewSource(seed + 1)), eof: make(chan struct{})}
+				go client.readLoop("4096")
+				go server.readLoop("4096")
+				client.write(1+r.Intn(1500), "small")
+				server.write(1+r.Intn(1500), "small")
+				first, second := client, server
+				if k%2 == 1 {
+					first, second = server, client
+				}
+				hx.Emit("PeerClose", "c", c, "d", first.outDir, "abortive", false)
+				halfClose(first.conn)
+				select {
+				case <-second.eof:
+				case <-time.After(10 * time.Second):
+				}
+				hx.Emit("PeerClose", "c", c, "d", second.outDir, "abortive", false)
+				second.conn.Close()
+				select {
+				case <-first.eof:
+				case <-time.After(10 * time.Second):
+				}
+				first.conn.Close()
+			}(k)
+		}
+		cw.Wait()
+	}
+	time.Sleep(50 * time.Millisecond)
+	hx.Emit("Final", "server_open", atomic.LoadInt64(&srv.open), "bridge_fds_leaked", fdsLeaked())
+	res.Case(fmt.Sprintf("churn:%d", churn), map[string]interface{}{"connections": churn, "parallel": 16})
 
 	// plain HTTP to the bridge backend is passed through to the backend port
 	hx.Reset("bridge-http", "bridge:http-passthrough")
@@ -503,5 +657,133 @@ func bridgeDriver(a *Args) {
 		hx.Emit("Http", "method", m, "ok", ok)
 		res.Case("http:"+m, map[string]interface{}{"method": m})
 	}
-	hx.Emit("Final", "server_open", 0)
+	hx.Emit("Final", "server_open", 0, "bridge_fds_leaked", 0)
 }
+
+// bridgeLibDriver: C15 at the level of the connection package. The client end is the net.Conn that
+// connection.DialWebsocket returns (a *WebsocketNetConn used directly, as programs embedding the
+// bridge do), the server end is connection.Handler in process in front of a TCP server. Unlike the
+// copy loops of the bridge binaries (32 KB buffers, never smaller than a message), the harness
+// reads from the WebsocketNetConn with buffers of 1 byte .. 64 KB, so that the partially consumed
+// message (bufferedMsg) is exercised, one connection at a time and 16 connections at once.
+func bridgeLibDriver(a *Args) {
+	res := a.Res
+	rng := hx.Rand("bridgelib")
+	srv := newBridgeServer()
+	defer srv.ln.Close()
+	backendPort := srv.ln.Addr().(*net.TCPAddr).Port
+	hs := httptest.NewServer(connection.Handler(backendPort, http.NotFoundHandler()))
+	defer hs.Close()
+	u, _ := url.Parse("ws" + strings.TrimPrefix(hs.URL, "http") + connection.StreamingPath)
+	cn := 0
+	var cmu sync.Mutex
+	one := func(rbuf, wseg string, upN, downN int) {
+		cmu.Lock()
+		cn++
+		c := cn
+		cmu.Unlock()
+		hx.Emit("Open", "c", c)
+		cl, err := connection.DialWebsocket(context.Background(), u, nil)
+		if err != nil {
+			res.Bad("DialWebsocket: %v", err)
+			return
+		}
+		// pairing: the first four bytes name the connection (outside the judged stream)
+		cl.Write([]byte{byte(c >> 24), byte(c >> 16), byte(c >> 8), byte(c)})
+		var sc net.Conn
+		deadline := time.After(10 * time.Second)
+		for sc == nil {
+			select {
+			case x := <-srv.conns:
+				four := make([]byte, 4)
+				if _, err := io.ReadFull(x, four); err != nil {
+					x.Close()
+					continue
+				}
+				id := int(four[0])<<24 | int(four[1])<<16 | int(four[2])<<8 | int(four[3])
+				if id == c {
+					sc = x
+				} else {
+					libPending.Store(id, x)
+				}
+			case <-time.After(5 * time.Millisecond):
+				if x, ok := libPending.LoadAndDelete(c); ok {
+					sc = x.(net.Conn)
+				}
+			case <-deadline:
+				res.Bad("library bridge: server never saw connection %d", c)
+				cl.Close()
+				return
+			}
+		}
+		client := &peer{conn: cl, c: c, outDir: "up", inDir: "down", rng: rand.New(rand.NewSource(rng.Int63())), eof: make(chan struct{}), agg: 4096}
+		server := &peer{conn: sc, c: c, outDir: "down", inDir: "up", rng: rand.New(rand.NewSource(rng.Int63())), eof: make(chan struct{}), agg: 4096}
+		go client.readLoop(rbuf)
+		go server.readLoop("4096")
+		var wg sync.WaitGroup
+		wg.Add(2)
+		go func() { defer wg.Done(); client.write(upN, wseg) }()
+		go func() { defer wg.Done(); server.write(downN, wseg) }()
+		wg.Wait()
+		// wait until everything has arrived, then close from the client side
+		deadline2 := time.Now().Add(60 * time.Second)
+		for time.Now().Before(deadline2) && (client.read < downN || server.read < upN) {
+			time.Sleep(2 * time.Millisecond)
+		}
+		hx.Emit("PeerClose", "c", c, "d", "up", "abortive", false)
+		halfClose(cl)
+		select {
+		case <-server.eof:
+		case <-time.After(10 * time.Second):
+		}
+		hx.Emit("PeerClose", "c", c, "d", "down", "abortive", false)
+		sc.Close()
+		select {
+		case <-client.eof:
+		case <-time.After(10 * time.Second):
+		}
+		cl.Close()
+	}
+	amount := 60000
+	if hx.Thorough() {
+		amount = 1 << 20
+	}
+	n := 0
+	for _, rbuf := range []string{"1", "7", "small", "1024", "4096", "64k"} {
+		for _, wseg := range []string{"small", "1025", "64k"} {
+			n++
+			hx.Reset(fmt.Sprintf("bridgelib-%d", n), fmt.Sprintf("bridgelib:rbuf=%s/wseg=%s", rbuf, wseg))
+			up, down := amount, amount
+			if rbuf == "1" {
+				up, down = 3000, 3000
+			}
+			one(rbuf, wseg, up, down)
+			time.Sleep(20 * time.Millisecond)
+			hx.Emit("Final", "server_open", 0, "judge_close", false, "bridge_fds_leaked", 0)
+			res.Case(fmt.Sprintf("lib:rbuf=%s/wseg=%s", rbuf, wseg), map[string]interface{}{"read_buffer": rbuf, "write_segments": wseg, "bytes_each_way": up})
+		}
+	}
+	// 16 connections at once, small read buffers on the websocket side, messages larger than the buffers
+	rounds := 2
+	if hx.Thorough() {
+		rounds = 10
+	}
+	for r := 0; r < rounds; r++ {
+		hx.Reset(fmt.Sprintf("bridgelib-conc-%d", r), "bridgelib:concurrent-16")
+		var wg sync.WaitGroup
+		for k := 0; k < 16; k++ {
+			wg.Add(1)
+			rb, ws := []string{"7", "small", "1024"}[k%3], []string{"1025", "64k"}[k%2]
+			go func() {
+				defer wg.Done()
+				one(rb, ws, amount, amount)
+			}()
+		}
+		wg.Wait()
+		time.Sleep(20 * time.Millisecond)
+		hx.Emit("Final", "server_open", 0, "judge_close", false, "bridge_fds_leaked", 0)
+		res.Case(fmt.Sprintf("lib:concurrent-16:round%d", r), map[string]interface{}{"connections": 16, "bytes_each_way": amount})
+	}
+}
+
+var libPending sync.Map
